@@ -421,6 +421,54 @@ def run(model: RepoModel, rep, tier: str):
                               f"which get_raw_item_by_id consults first: a read after re-save returns the old content",
                               path=cfg.describe_path(p))
 
+    # memo inside the active bundle: <item>.data_model is built lazily from <item>.flattened_item by the reader
+    memo_pairs = []   # (memo attr, source attr)
+    for n in walk_no_nested(reader.node):
+        if isinstance(n, ast.Assign) and len(n.targets) == 1 and isinstance(n.targets[0], ast.Attribute) \
+                and isinstance(n.targets[0].value, ast.Name) and isinstance(n.value, ast.Call):
+            base = n.targets[0].value.id
+            for x in ast.walk(n.value):
+                if isinstance(x, ast.Attribute) and isinstance(x.value, ast.Name) and x.value.id == base and x.attr != n.targets[0].attr:
+                    memo_pairs.append((n.targets[0].attr, x.attr))
+    rep.analysed["memo fields of active items"] = memo_pairs
+    for memo, srcattr in sorted(set(memo_pairs)):
+        sites = 0
+        for c in family:
+            for f in c.methods.values():
+                cfg = cfg_of(f.node)
+                for n in cfg.g.nodes:
+                    st = cfg.stmt.get(n)
+                    if cfg.kind[n] == "stmt" and isinstance(st, (ast.Assign, ast.AugAssign)):
+                        for t in store_targets(st):
+                            if isinstance(t, ast.Attribute) and t.attr == srcattr and isinstance(t.value, ast.Name) and t.value.id != "self":
+                                sites += 1
+                                base = t.value.id
+                                resets = {k for k in cfg.g.nodes if cfg.kind[k] == "stmt" and isinstance(cfg.stmt[k], ast.Assign)
+                                          and any(isinstance(t2, ast.Attribute) and t2.attr == memo and isinstance(t2.value, ast.Name)
+                                                  and t2.value.id == base for t2 in cfg.stmt[k].targets)
+                                          and isinstance(cfg.stmt[k].value, ast.Constant) and cfg.stmt[k].value.value is None}
+                                key = f"{FILE}::{f.qualname}::{base}.{srcattr} replaced => {base}.{memo} reset"
+                                pth = cfg.path_avoiding(n, cfg.EXIT, resets)
+                                before = any(cfg.dominates(r, n) for r in resets)
+                                if pth is None or before:
+                                    rep.holds("C15.R1", key, FILE, st.lineno, f"the memo {memo} is reset on every path")
+                                else:
+                                    rep.violation("C15.R1", key, FILE, st.lineno,
+                                                  f"{f.qualname} replaces `{base}.{srcattr}` of an item in the active bundle but keeps its "
+                                                  f"`{base}.{memo}`, the copy get_raw_item_by_id memoised from the old rows and serves first: "
+                                                  f"save(A); get; save(B); get returns A", path=cfg.describe_path(pth))
+        # constructing a fresh item always starts with an empty memo
+        for c in family:
+            for f in c.methods.values():
+                for n in walk_no_nested(f.node):
+                    if isinstance(n, ast.Call) and call_name(n) == "ActiveItem":
+                        mv = kwarg(n, memo)
+                        key = f"{FILE}::{f.qualname}::ActiveItem(... {memo}=None)"
+                        if mv is None or (isinstance(mv, ast.Constant) and mv.value is None):
+                            rep.holds("C15.R1", key, FILE, n.lineno, "fresh active item starts without a memoised table")
+                        else:
+                            rep.violation("C15.R1", key, FILE, n.lineno, f"a new active item is created with a pre-filled memo `{norm(mv)}`")
+
     # ------------------------------------------------------------------ R2
     for c in family:
         f = c.methods.get("export")
@@ -473,6 +521,54 @@ def run(model: RepoModel, rep, tier: str):
             rep.holds("C15.R2", key, FILE, f.node.lineno, "write, re-point loop over the index with == -1 guard, counter advance all dominate the clear")
         else:
             rep.violation("C15.R2", key, FILE, f.node.lineno, f"{f.qualname}: " + "; ".join(sorted(set(problems))))
+
+    # the bundle counter must stay above every bundle id in the index (new_bundle_id() returns it as the next file suffix)
+    for c in family:
+        f = c.methods.get("restore_indexing")
+        if f is None:
+            continue
+        cfg = cfg_of(f.node)
+        stores = [n for n in cfg.g.nodes if cfg.kind[n] == "stmt" and isinstance(cfg.stmt[n], ast.Assign)
+                  and any(isinstance(t, ast.Subscript) and is_self_attr(t.value, index_attr) for t in cfg.stmt[n].targets)]
+        cnt_assigns = [n for n in cfg.g.nodes if cfg.kind[n] == "stmt" and isinstance(cfg.stmt[n], ast.Assign)
+                       and any(is_self_attr(t, "bundle_count") for t in cfg.stmt[n].targets)]
+
+        def is_max_plus_one(st) -> bool:
+            v = st.value
+            return isinstance(v, ast.Call) and call_name(v) == "max" and any(is_self_attr(a, "bundle_count") for a in v.args) \
+                and any(isinstance(a, ast.BinOp) and isinstance(a.op, ast.Add) and is_const(a.right, 1) for a in v.args)
+
+        def is_global_max(st) -> bool:
+            v = st.value
+            return any(isinstance(x, ast.Call) and call_name(x) == "max" for x in ast.walk(v)) and \
+                any(isinstance(x, ast.BinOp) and isinstance(x.op, ast.Add) and is_const(x.right, 1) for x in ast.walk(v))
+
+        key = f"{FILE}::{f.qualname}::bundle counter restored above every indexed bundle id"
+        bad_forms = [n for n in cnt_assigns if not (is_max_plus_one(cfg.stmt[n]) or is_global_max(cfg.stmt[n]))]
+        good = {n for n in cnt_assigns if n not in bad_forms}
+        probs = []
+        if bad_forms:
+            probs.append(f"`{norm(cfg.stmt[bad_forms[0]])}` is not of the form max(<counter>, <bundle id> + 1)")
+        for sn in stores:
+            pth = cfg.path_avoiding(sn, cfg.EXIT, good)
+            if pth is not None:
+                probs.append("an index entry is restored on a path that never raises the counter above its bundle id")
+                break
+        if not stores:
+            rep.unknown("C15.R2", key, FILE, f.node.lineno, "no index store recognised")
+        elif probs:
+            rep.violation("C15.R2", key, FILE, f.node.lineno,
+                          f"{f.qualname}: " + "; ".join(probs) + ": after a restore the next export re-uses the id of an existing "
+                          "bundle file and overwrites the items stored there")
+        else:
+            rep.holds("C15.R2", key, FILE, f.node.lineno, f"{len(stores)} index store(s), each followed by bundle_count = max(bundle_count, id + 1)")
+    nb = gl.methods.get("new_bundle_id")
+    key = f"{FILE}::GeneralLoader.new_bundle_id::returns the counter and advances it"
+    if nb is not None:
+        rets = [n for n in walk_no_nested(nb.node) if isinstance(n, ast.Return)]
+        inc = any(isinstance(n, ast.AugAssign) and is_self_attr(n.target, "bundle_count") and isinstance(n.op, ast.Add) for n in walk_no_nested(nb.node))
+        (rep.holds if inc and rets else rep.violation)("C15.R2", key, FILE, nb.node.lineno,
+                                                     "post-incremented counter" if inc and rets else "new_bundle_id no longer advances the bundle counter: every export overwrites bundle0")
 
     # ------------------------------------------------------------------ loader table
     init = ld.methods.get("__init__")
@@ -825,7 +921,23 @@ def _mut_rename_loader_attr(src):
     return text_replace(src, "self._cfg_loader", "self._cfg_store", count=10**6)
 
 
+def _mut_reuse_active_item(src):
+    from ..mutate import replace_stmt_where
+    return replace_stmt_where(src, "GeneralLoader", "save",
+                              lambda st: isinstance(st, ast.Assign) and isinstance(st.value, ast.Call) and call_name(st.value) == "ActiveItem",
+                              "active_item = self.active_bundle.get(_id, None)\nif active_item is None:\n    self.active_bundle[_id] = ActiveItem(flattened_item = flattened_item, data_model = None)\nelse:\n    active_item.flattened_item = flattened_item")
+
+
+def _mut_count_bundles(src):
+    from ..mutate import replace_stmt_where
+    return replace_stmt_where(src, "GeneralLoader", "restore_indexing",
+                              lambda st: isinstance(st, ast.Assign) and any(is_self_attr(t, "bundle_count") for t in st.targets),
+                              "self.bundle_count = len(set(self.item_id_to_bundle_id.values()) - {-1})", nth=0)
+
+
 MUTANTS = [
+    ("save-reuses-active-item", FILE, _mut_reuse_active_item, "flattened_item replaced"),
+    ("restore-counts-bundles", FILE, _mut_count_bundles, "bundle counter restored"),
     ("save-no-evict", FILE, _mut_save_no_evict, "GeneralLoader.save"),
     ("export-no-repoint", FILE, _mut_export_no_repoint("GeneralLoader"), "GeneralLoader.export"),
     ("gir-export-no-repoint", FILE, _mut_export_no_repoint("UnitGIRLoader"), "UnitGIRLoader.export"),
